@@ -47,6 +47,12 @@ fn post_adapt(fl: f64, x: f64) -> f64 {
 }
 
 pub fn forward(xyz: V3, vc: &Vc) -> Cam {
+    forward_diag(xyz, vc).0
+}
+
+/// forward model plus the two quantities whose sign decides whether the model is defined at all:
+/// the achromatic response A and the denominator of t
+pub fn forward_diag(xyz: V3, vc: &Vc) -> (Cam, f64, f64) {
     let xyz = [xyz[0] * 100.0, xyz[1] * 100.0, xyz[2] * 100.0];
     let w = [vc.white[0] * 100.0, vc.white[1] * 100.0, vc.white[2] * 100.0];
     let (f, c, nc) = surround_params(vc.surround);
@@ -84,7 +90,7 @@ pub fn forward(xyz: V3, vc: &Vc) -> Cam {
     let cc = t.powf(0.9) * (j / 100.0).sqrt() * (1.64 - 0.29f64.powf(n)).powf(0.73);
     let m = cc * fl.powf(0.25);
     let s = 100.0 * (m / q).sqrt();
-    Cam { j, c: cc, h, q, m, s }
+    (Cam { j, c: cc, h, q, m, s }, big_a, ra[0] + ra[1] + 21.0 * ra[2] / 20.0)
 }
 
 /// CAM16-UCS: (J', a', b') and (J', M', h)
